@@ -14,9 +14,17 @@ Local Opaque Z.mul Z.add Z.sub Z.modulo Z.ltb Gen.CurveConsts.Q.
 
 (* ---- keccak256 -------------------------------------------------------------- *)
 
+(* by conversion for the source as it is (a range loop, Sum(nil)); the second branch also
+   accepts the same function written with an index loop and/or Sum(b) with b the nil slice *)
 Lemma gen_keccak256_Hash_eq : forall data,
   keccak256_Hash data = KeccakStream.Hash data.
-Proof. reflexivity. Qed.
+Proof.
+  intros data.
+  first [ reflexivity
+        | unfold keccak256_Hash, KeccakStream.Hash; cbv zeta; cbn [app];
+          first [ reflexivity
+                | rewrite (fold_left_seq_nth _ _ KeccakStream.kwrite []); reflexivity ] ].
+Qed.
 
 (* ---- utils ------------------------------------------------------------------ *)
 
